@@ -130,12 +130,12 @@ theorem log_lands_in_own_step {s : St} (hs : Reachable s) {pre post : List Event
     refine ⟨time, pre1, pre2, w1, steps1, rfl, h2, hw1, g1, ?_⟩
     intro hfresh
     have ha2 : w2.active.lookup t = some { target := some (l, steps1.length), endTime := none } := by
-      rw [g4]; simp [List.lookup_cons]
+      rw [g4]; simp
     obtain ⟨k1, k2⟩ := run_stable pre2 w2 w hrest h2 hfresh ha2
     obtain ⟨ss, k3, k4⟩ := k2 _ g2
     obtain ⟨st, k5, k6, _⟩ := k4.keep steps1.length (newStep d time) (by simp)
     rw [apply_logLike hl ht hloc hen] at hw'
-    obtain ⟨ref, m1, _, m3, m4⟩ := addEntry_spec hw'
+    obtain ⟨ref, m1, m3, m4⟩ := addEntry_spec hw'
     rw [k1] at m1; injection m1 with m1; subst m1
     dsimp only at m4
     obtain ⟨steps, m5, m6, m7⟩ := m4
@@ -189,7 +189,7 @@ theorem same_thread_order {s : St} (hs : Reachable s) {pre mid post : List Event
   obtain ⟨X, hX⟩ := c3
   -- e2
   rw [apply_logLike hl2 ht2 hloc2 hen2] at hw3
-  obtain ⟨ref, m1, _, _, m4⟩ := addEntry_spec hw3
+  obtain ⟨ref, m1, _, m4⟩ := addEntry_spec hw3
   rw [b1] at m1; injection m1 with m1; subst m1
   dsimp only at m4
   obtain ⟨steps, m5, m6, _⟩ := m4
